@@ -53,3 +53,10 @@ Theorem C05_combinators_of_built_globs_are_total : forall ts, Forall (fun t => e
   any_tree ts = Ok (TAlt (0, 0) (map (respan (fun _ => (0, 0))) ts)).
 Proof. exact built_any_total. Qed.
 Print Assumptions C05_combinators_of_built_globs_are_total.
+
+From WaxProofs Require Import PartitionFacts.
+
+(* partition() on a built glob: total up to checked overflow (never "span offset split UTF-8 byte sequence") *)
+Theorem C05_partition_panics_only_by_overflow : forall hc e t r s, build e = BuildOk t r -> partition hc e t = Panic s -> s = PanicOverflow.
+Proof. exact partition_panics_only_by_overflow. Qed.
+Print Assumptions C05_partition_panics_only_by_overflow.
